@@ -14,6 +14,7 @@ import gen_l2mut    # noqa: F401
 import gen_l2xform  # noqa: F401
 import gen_l2iter   # noqa: F401
 import gen_l2r64    # noqa: F401
+import gen_l2r64q   # noqa: F401
 import gen_l2par    # noqa: F401
 import gen_l2ser64  # noqa: F401
 import gen_l2q      # noqa: F401
